@@ -62,13 +62,19 @@ def independent_auth_ok(ep, sa, wire_peer_init, my_nonce_owner_msg, auth_msg_pla
 class Session:
     """a four-message exchange under the control of a man in the middle"""
 
+    deep = None        # (ctx, res) while a check runs: every handler call and loop iteration is also replayed on the Lean model
+
     def __init__(self, seed, conf_a, conf_b, **kw):
-        self.h = CP.History(seed, trace=False, conf_a=conf_a, conf_b=conf_b, **kw)
+        trace = Session.deep is not None and Session.deep[0].driver is not None
+        self.h = CP.History(seed, trace=trace, deep=trace, conf_a=conf_a, conf_b=conf_b, **kw)
         self.w = self.h.w
         self.received = {'A': [], 'B': []}      # datagrams each endpoint received (bytes), in order
         self.sent_by = {'A': [], 'B': []}
 
     def close(self):
+        if self.h.tr is not None and Session.deep is not None:
+            self.h.tr.close()
+            S.deep_check(Session.deep[0], Session.deep[1], self.h.tr)
         self.h.close()
 
     def send(self, data, to):
@@ -216,6 +222,14 @@ def mitm_variants(rng, data, k):
 
 def run(ctx):
     res = Result()
+    Session.deep = (ctx, res)
+    try:
+        return run_(ctx, res)
+    finally:
+        Session.deep = None
+
+
+def run_(ctx, res):
     rng = ctx.rng
     res.rule = ('man in the middle: each of the first four messages x ~14 rewritings (cleartext) / byte mutations, replay, reflection '
                 '(protected), PSK and RSA, 3 suites; configuration mismatches: wrong PSK either way, wrong identity, wrong identity type, '
